@@ -43,6 +43,16 @@ func readTLDTable() ([]tldEntry, error) {
 		if err != nil {
 			return nil, err
 		}
+		out = append(out, tldEntriesOf(af)...)
+	}
+	sort.Slice(out, func(i, j int) bool { return out[i].Key < out[j].Key })
+	return out, nil
+}
+
+// tldEntriesOf: the entries of every map[string]GTLDPeriod literal in a parsed file.
+func tldEntriesOf(af *ast.File) []tldEntry {
+	var out []tldEntry
+	{
 		ast.Inspect(af, func(n ast.Node) bool {
 			cl, ok := n.(*ast.CompositeLit)
 			if !ok {
@@ -93,8 +103,7 @@ func readTLDTable() ([]tldEntry, error) {
 			return false
 		})
 	}
-	sort.Slice(out, func(i, j int) bool { return out[i].Key < out[j].Key })
-	return out, nil
+	return out
 }
 
 // refValidTLD is the property, literally.
@@ -137,6 +146,7 @@ func mixCase(s string) string {
 var c18Zones = []*time.Location{time.UTC, time.FixedZone("+14", 14*3600), time.FixedZone("-12", -12*3600), time.FixedZone("+0530", 5*3600+1800), time.FixedZone("-0001", -60)}
 
 func checkC18(ctx *core.Ctx, rep *core.Report) {
+	c18Generator(ctx, rep)
 	entries, err := readTLDTable()
 	if err != nil || len(entries) == 0 {
 		rep.InternalError("cannot read the TLD table from the sources: %v (entries=%d)", err, len(entries))
